@@ -2391,8 +2391,11 @@ class GtkDocCommentBlockWriter(object):
             lines = []
 
             # Identifier part
-            if block.name.startswith('SECTION') or block.name.startswith('ACTION'):
+            action = re.match(r'^ACTION:(\w+):([\w-]+\.[\w-]+)$', block.name)
+            if block.name.startswith('SECTION:'):
                 lines.append(block.name)
+            elif action:
+                lines.append('%s|%s' % action.groups())
             else:
                 if block.annotations:
                     annotations = self._serialize_annotations(block.annotations)
